@@ -161,6 +161,9 @@ def check(run):
         ok = any(n['k'] == 'bin' and n['op'] == '+' and q.linform(f, n) == ({pn: 1}, hsz) for n in f.all_nodes())
         run.check(ok, 'R14', 'udp-length', 'sim::aux::write_udp_header', f.loc(), 'UDP length field is not sizeof(udp_header) + size', 'length = 8 + payload')
 
+    run.clause('a capture never throws out of the simulation: the IPv4-only record writers cast addresses to v4 only under a family test')
+    if engines.address_casts_guarded(run, [g_ for g_ in fx.repo_functions() if g_.file.endswith('pcap.cpp')], rule='R5') < 2:
+        run.broke('fewer than 2 address casts in pcap.cpp')
     run.clause('every transmission is logged once before it leaves: TCP payload/EOF only through send_packet; UDP in send_to_impl; with true addresses')
     sp = fx.fn1(T + '::send_packet')
     ipk = fx.fn1(T + '::incoming_packet')
